@@ -172,6 +172,41 @@ def api_answer(op, env):
                 return True
             except BeartypeException as e:
                 return 'exc:' + type(e).__name__
+        if kind == 'ugen':
+            # a user generic over a subscripted container, asked about under one of its subscriptions:
+            # ['ugen', generic, [argument names], items of the instance, entry point]
+            import typing
+            T_, S_ = typing.TypeVar('T_'), typing.TypeVar('S_')
+            gens = env.setdefault('ugens', {})
+            if not gens:
+                class UBox(list[T_]): pass
+                class UOld(typing.List[T_]): pass
+                class UPair(dict[S_, T_]): pass
+                gens.update(UBox=UBox, UOld=UOld, UPair=UPair)
+            G = gens[op[1]]
+            args = tuple({'int': int, 'str': str, 'bytes': bytes}[a] for a in op[2])
+            hint = G[args if len(args) > 1 else args[0]]
+            items = [U.to_python(x) for x in op[3]]
+            obj = G(dict(zip(items[0::2], items[1::2]))) if op[1] == 'UPair' else G(items)
+            if op[4] == 'is_bearable':
+                return bool(is_bearable(obj, hint))
+            if op[4] == 'typehint':
+                return bool(TypeHint(hint).is_bearable(obj))
+            if op[4] == 'die':
+                try:
+                    die_if_unbearable(obj, hint)
+                    return True
+                except BeartypeException as e:
+                    return 'exc:' + type(e).__name__
+
+            def fn(x):
+                return x
+            fn.__annotations__ = {'x': hint}
+            try:
+                beartype(fn)(obj)
+                return True
+            except BeartypeException as e:
+                return 'exc:' + type(e).__name__
         if kind == 'gc':
             env['keep'].clear()
             gc.collect()
